@@ -602,6 +602,112 @@ func ruleLoaderCache(c *Ctx) {
 			}
 		}
 	}
+	// G-CACHEINDEP: verdicts that do not depend on the file's content (cycle, depth limit, already loaded)
+	// are taken outside any branch on the outcome of the cache lookup.
+	var cacheVars []types.Object
+	sname := c.P.declName(li.single)
+	ast.Inspect(li.single.Body, func(n ast.Node) bool {
+		as, ok := n.(*ast.AssignStmt)
+		if !ok || len(as.Rhs) != 1 {
+			return true
+		}
+		ix, ok := ast.Unparen(as.Rhs[0]).(*ast.IndexExpr)
+		if !ok {
+			return true
+		}
+		if se, ok := ast.Unparen(ix.X).(*ast.SelectorExpr); ok {
+			if t := info.TypeOf(se.X); t != nil && strings.HasSuffix(types.TypeString(t, nil), "include.Loader") {
+				for _, l := range as.Lhs {
+					if id, ok := l.(*ast.Ident); ok {
+						if o := info.Defs[id]; o != nil {
+							cacheVars = append(cacheVars, o)
+						} else if o := info.Uses[id]; o != nil {
+							cacheVars = append(cacheVars, o)
+						}
+					}
+				}
+			}
+		}
+		return true
+	})
+	c.census("G-CACHEINDEP", "variables bound by the cache lookup", len(cacheVars), 1)
+	dependsOnCache := func(e ast.Expr) bool {
+		dep := false
+		ast.Inspect(e, func(y ast.Node) bool {
+			if id, ok := y.(*ast.Ident); ok {
+				for _, cv := range cacheVars {
+					if info.Uses[id] == cv {
+						dep = true
+					}
+				}
+			}
+			return true
+		})
+		return dep
+	}
+	nVerdict := 0
+	ast.Inspect(li.single.Body, func(n ast.Node) bool {
+		var what string
+		switch x := n.(type) {
+		case *ast.BinaryExpr:
+			for _, side := range []ast.Expr{x.X, x.Y} {
+				if se, ok := ast.Unparen(side).(*ast.SelectorExpr); ok && se.Sel.Name == "MaxIncludeDepth" {
+					what = "depth-limit test"
+				}
+			}
+		case *ast.IfStmt:
+			if ix, ok := ast.Unparen(x.Cond).(*ast.IndexExpr); ok {
+				if t := info.TypeOf(ix.X); t != nil {
+					if m, isMap := t.Underlying().(*types.Map); isMap && types.TypeString(m.Elem(), nil) == "bool" {
+						what = "membership test " + exprStr(c.P.Fset, x.Cond)
+						n = x.Cond
+					}
+				}
+			}
+		}
+		if what == "" {
+			return true
+		}
+		nVerdict++
+		bad := ""
+		for _, fr := range enclosingConds(c.P, info, li.single.Body, n) {
+			if fr.Cond != nil && dependsOnCache(fr.Cond) {
+				bad = exprStr(c.P.Fset, fr.Cond)
+			}
+		}
+		c.check(bad == "", "G-CACHEINDEP", sname, what+" independent of the cache", n.Pos(),
+			"the verdict is taken whether or not the file's parse result is cached",
+			"the "+what+" is only evaluated under `"+bad+"`, i.e. depending on whether the file happens to be cached: the result of a load depends on what was loaded before")
+		return true
+	})
+	c.census("G-CACHEINDEP", "content-independent verdicts in the include step", nVerdict, 3)
+	// G-STATE: the only state a Loader carries from one load to the next is the per-file parse cache.
+	if lo := li.pk.Types.Scope().Lookup("Loader"); lo != nil {
+		st, _ := lo.Type().Underlying().(*types.Struct)
+		nState := 0
+		for i := 0; st != nil && i < st.NumFields(); i++ {
+			f := st.Field(i)
+			ts := types.TypeString(f.Type(), nil)
+			switch f.Type().Underlying().(type) {
+			case *types.Map, *types.Slice, *types.Pointer, *types.Chan, *types.Interface:
+				nState++
+				isParseCache := false
+				if m, ok := f.Type().Underlying().(*types.Map); ok {
+					if b, ok := m.Key().Underlying().(*types.Basic); ok && b.Kind() == types.String {
+						es := types.TypeString(m.Elem(), nil)
+						isParseCache = strings.HasSuffix(es, "include.cachedJournal") || strings.HasSuffix(es, "ast.Journal")
+					}
+				}
+				if isParseCache {
+					c.ok("G-STATE", "include.Loader", "history-carrying field "+f.Name(), f.Pos(), "per-file parse cache keyed by file path (covered by G-CACHEPATH, G-CACHEINDEP, G-INVALIDATE)")
+				} else {
+					c.undecided("G-STATE", "include.Loader", "history-carrying field "+f.Name(), f.Pos(),
+						"the loader carries additional state of type "+shortQual(ts)+" from one load to the next; independence of the load result from that state (key completeness, invalidation) is not established by any rule")
+				}
+			}
+		}
+		c.census("G-STATE", "reference-typed fields of the loader", nState, 1)
+	}
 	ruleInvalidate(c)
 }
 
